@@ -696,13 +696,38 @@ def rule_radix_marker(chk, facts):
             return False
         return pred
 
+    def is_radix_cmp(f, m):
+        if not (isinstance(m, (list, tuple)) and m and m[0] == 'b' and m[1] in ('<', '<=', '>', '>=')):
+            return False
+        L, Rr = _lin(f, m[2]), _lin(f, m[3])
+        if L is None or Rr is None:
+            return False
+        d = dict(L)
+        for k, v in Rr.items():
+            d[k] = d.get(k, 0) - v
+        return bool(d.get('R') and d.get('D'))
+
+    def true_needs_radix(f, e):
+        """the expression e can only be true if a radix comparison in it is true (conjunct of a && chain)"""
+        e = nocast(e)
+        if e[0] == 'b' and e[1] == '&&':
+            return true_needs_radix(f, e[2]) or true_needs_radix(f, e[3])
+        if e[0] == 'b' and e[1] in ('<', '<=', '>', '>='):
+            return is_radix_cmp(f, list(e) if not isinstance(e, list) else e)
+        if e[0] == 'l':
+            # a local holding such a conjunction
+            ds = [m for b, i, ln, m in f.nodes() if is_assign(m) and m[1] == '=' and strip(m[2]) == e]
+            return bool(ds) and all(true_needs_radix(f, d[3]) for d in ds)
+        return False
+
     def radix_guarded(f, depth=0):
         if depth > 2:
             return False
-        rets = [(b, i, ln) for b, i, ln, m in f.nodes() if m[0] == 'ret' and m[1] is not None and const_val(nocast(m[1])) not in (0,)]
+        rets = [(b, i, ln, m) for b, i, ln, m in f.nodes() if m[0] == 'ret' and m[1] is not None and const_val(nocast(m[1])) not in (0,)]
         if not rets:
             return False
-        return all(f.guarded(b, i, radix_edge(f))[0] for b, i, ln in rets)
+        return all(f.guarded(b, i, radix_edge(f))[0] or (const_val(nocast(m[1])) is None and true_needs_radix(f, m[1]))
+                   for b, i, ln, m in rets)
     n12 = 0
     for f in u.funcs.values():
         if f.file != 'intformat.c' or not f.name.startswith('ChkIntFormat') or f.entry is None:
